@@ -297,4 +297,157 @@ theorem c11_find_c (hc : CfgOK c) (hw : WFW c cu w) (ch : Byte) (p : Option Nat)
   rw [findCh_abs hc hw.1 ch hpW] at h1; cases h1
   exact c11_obs hw.1 (by simp only [spec, needleText, needlePos])
 
+theorem noNul_not_mem {a : List Byte} (h : hasNul a = false) : (0 : Byte) ∉ a := by
+  unfold hasNul at h
+  intro hm
+  rw [List.contains_iff_mem.mpr hm] at h
+  cases h
+
+/-- `strlen` finds the first NUL -/
+theorem cstrlenAux_of_nul : ∀ (a : List Nat) (n k : Nat), a[n]? = some 0 → (0 : Nat) ∉ a.take n →
+    cstrlenAux a k = .ok (k + n)
+  | [], n, k, h, _ => by simp at h
+  | x :: xs, 0, k, h, _ => by
+    have hx : x = 0 := by simpa using h
+    unfold cstrlenAux; rw [if_pos hx]; rfl
+  | x :: xs, n + 1, k, h, hn => by
+    have h' : xs[n]? = some 0 := by simpa using h
+    rw [List.take_succ_cons] at hn
+    have hx : x ≠ 0 := fun e => hn (by rw [e]; exact List.mem_cons_self)
+    have hn' : (0 : Nat) ∉ xs.take n := fun m => hn (List.mem_cons_of_mem _ m)
+    unfold cstrlenAux
+    rw [if_neg hx, cstrlenAux_of_nul xs n (k + 1) h' hn']
+    congr 1; omega
+
+/-- a well-formed string whose text has no NUL is a C string of its length -/
+theorem wf_cstrlen {s : FStr} (hs : WF c s) (h0 : (0 : Byte) ∉ abs s) : cstrlen s.buf = .ok s.len := by
+  unfold cstrlen
+  rw [cstrlenAux_of_nul s.buf s.len 0 hs.2.2 h0, Nat.zero_add]
+
+/-- `c_str()` of a std::string without NUL characters -/
+theorem cstr_cstrlen {d : Str} (h0 : (0 : Byte) ∉ d) : cstrlen (d ++ [0]) = .ok d.length := by
+  unfold cstrlen
+  rw [cstrlenAux_of_nul (d ++ [0]) d.length 0 (by simp) (by rw [List.take_left' rfl]; exact h0), Nat.zero_add]
+
+theorem ff_noNul {x pat : Str} (h : (!true || !hasNul x && !hasNul pat) = true) :
+    (0 : Byte) ∉ x ∧ (0 : Byte) ∉ pat := by
+  simp only [Bool.not_true, Bool.false_or, Bool.and_eq_true, Bool.not_eq_true'] at h
+  exact ⟨noNul_not_mem h.1, noNul_not_mem h.2⟩
+
+theorem c11_ffo_f (hw : WFW c cu w) (p : Option Nat) (hd : inDomain (npos c) w (.search .ffo (.f p)) = true) :
+    C11Holds c cu w (.search .ffo (.f p)) := by
+  intro w' o h
+  simp only [step] at h
+  obtain ⟨r, h1, rfl, rfl⟩ := obs_inv h
+  simp only [searchStep] at h1
+  simp only [inDomain, needleText, Bool.and_eq_true] at hd
+  have ht := hw.2.1
+  have hpos : 0 < w'.t.len := by have := abs_length ht; have := of_decide_eq_true hd.1.1; omega
+  obtain ⟨hx, hpat⟩ := ff_noNul hd.2
+  rw [findFirstOfImpl_abs hw.1 (wf_cstrlen ht hpat) _ hpos hx] at h1; cases h1
+  exact c11_obs hw.1 (by simp only [spec, needleText, needlePos, abs, Bool.false_eq_true, if_false])
+
+theorem c11_ffno_f (hw : WFW c cu w) (p : Option Nat) (hd : inDomain (npos c) w (.search .ffno (.f p)) = true) :
+    C11Holds c cu w (.search .ffno (.f p)) := by
+  intro w' o h
+  simp only [step] at h
+  obtain ⟨r, h1, rfl, rfl⟩ := obs_inv h
+  simp only [searchStep] at h1
+  simp only [inDomain, needleText, Bool.and_eq_true] at hd
+  have ht := hw.2.1
+  have hpos : 0 < w'.t.len := by have := abs_length ht; have := of_decide_eq_true hd.1.1; omega
+  obtain ⟨hx, hpat⟩ := ff_noNul hd.2
+  rw [findFirstOfImpl_abs hw.1 (wf_cstrlen ht hpat) _ hpos hx] at h1; cases h1
+  exact c11_obs hw.1 (by simp only [spec, needleText, needlePos, abs, if_true])
+
+theorem c11_ffo_s (hw : WFW c cu w) (d : Str) (p : Option Nat)
+    (hd : inDomain (npos c) w (.search .ffo (.s d p)) = true) : C11Holds c cu w (.search .ffo (.s d p)) := by
+  intro w' o h
+  simp only [step] at h
+  obtain ⟨r, h1, rfl, rfl⟩ := obs_inv h
+  simp only [searchStep] at h1
+  simp only [inDomain, needleText, Bool.and_eq_true] at hd
+  have hpos : 0 < d.length := of_decide_eq_true hd.1.1
+  obtain ⟨hx, hpat⟩ := ff_noNul hd.2
+  rw [findFirstOfImpl_abs hw.1 (cstr_cstrlen hpat) _ hpos hx, List.take_left' rfl] at h1; cases h1
+  exact c11_obs hw.1 (by simp only [spec, needleText, needlePos, Bool.false_eq_true, if_false])
+
+theorem c11_ffno_s (hw : WFW c cu w) (d : Str) (p : Option Nat)
+    (hd : inDomain (npos c) w (.search .ffno (.s d p)) = true) : C11Holds c cu w (.search .ffno (.s d p)) := by
+  intro w' o h
+  simp only [step] at h
+  obtain ⟨r, h1, rfl, rfl⟩ := obs_inv h
+  simp only [searchStep] at h1
+  simp only [inDomain, needleText, Bool.and_eq_true] at hd
+  have hpos : 0 < d.length := of_decide_eq_true hd.1.1
+  obtain ⟨hx, hpat⟩ := ff_noNul hd.2
+  rw [findFirstOfImpl_abs hw.1 (cstr_cstrlen hpat) _ hpos hx, List.take_left' rfl] at h1; cases h1
+  exact c11_obs hw.1 (by simp only [spec, needleText, needlePos, if_true])
+
+theorem c11_ffo_ppc (hw : WFW c cu w) (a : List Byte) (p n : Nat)
+    (hd : inDomain (npos c) w (.search .ffo (.ppc a p n)) = true) : C11Holds c cu w (.search .ffo (.ppc a p n)) := by
+  intro w' o h
+  simp only [step] at h
+  obtain ⟨r, h1, rfl, rfl⟩ := obs_inv h
+  simp only [searchStep] at h1
+  simp only [inDomain, needleText, Bool.and_eq_true] at hd
+  have hn : n ≤ a.length := of_decide_eq_true hd.1.2
+  have hpos : 0 < n := by have := of_decide_eq_true hd.1.1; rw [List.length_take] at this; omega
+  rw [findFirstOfPN_abs hw.1 _ hn hpos] at h1; cases h1
+  exact c11_obs hw.1 (by simp only [spec, needleText, needlePos, Bool.false_eq_true, if_false])
+
+theorem c11_ffno_ppc (hw : WFW c cu w) (a : List Byte) (p n : Nat)
+    (hd : inDomain (npos c) w (.search .ffno (.ppc a p n)) = true) : C11Holds c cu w (.search .ffno (.ppc a p n)) := by
+  intro w' o h
+  simp only [step] at h
+  obtain ⟨r, h1, rfl, rfl⟩ := obs_inv h
+  simp only [searchStep] at h1
+  simp only [inDomain, needleText, Bool.and_eq_true] at hd
+  have hn : n ≤ a.length := of_decide_eq_true hd.1.2
+  have hpos : 0 < n := by have := of_decide_eq_true hd.1.1; rw [List.length_take] at this; omega
+  rw [findFirstOfPN_abs hw.1 _ hn hpos] at h1; cases h1
+  exact c11_obs hw.1 (by simp only [spec, needleText, needlePos, if_true])
+
+theorem c11_ffo_pp (hw : WFW c cu w) (a : List Byte) (p : Option Nat)
+    (hd : inDomain (npos c) w (.search .ffo (.pp a p)) = true) : C11Holds c cu w (.search .ffo (.pp a p)) := by
+  intro w' o h
+  simp only [step] at h
+  obtain ⟨r, h1, rfl, rfl⟩ := obs_inv h
+  simp only [searchStep] at h1
+  simp only [inDomain, needleText, Bool.and_eq_true] at hd
+  obtain ⟨n, hn, hlt, hof⟩ := cstrlen_of_mem (hasNul_mem hd.1.2)
+  have hpos : 0 < n := by have := of_decide_eq_true hd.1.1; rw [hof, List.length_take] at this; omega
+  obtain ⟨hx, _⟩ := ff_noNul hd.2
+  rw [hn, bindR_ok, findFirstOfImpl_abs hw.1 hn _ hpos hx] at h1; cases h1
+  exact c11_obs hw.1 (by simp only [spec, needleText, needlePos, hof, Bool.false_eq_true, if_false])
+
+theorem c11_ffno_pp (hw : WFW c cu w) (a : List Byte) (p : Option Nat)
+    (hd : inDomain (npos c) w (.search .ffno (.pp a p)) = true) : C11Holds c cu w (.search .ffno (.pp a p)) := by
+  intro w' o h
+  simp only [step] at h
+  obtain ⟨r, h1, rfl, rfl⟩ := obs_inv h
+  simp only [searchStep] at h1
+  simp only [inDomain, needleText, Bool.and_eq_true] at hd
+  obtain ⟨n, hn, hlt, hof⟩ := cstrlen_of_mem (hasNul_mem hd.1.2)
+  have hpos : 0 < n := by have := of_decide_eq_true hd.1.1; rw [hof, List.length_take] at this; omega
+  obtain ⟨hx, _⟩ := ff_noNul hd.2
+  rw [hn, bindR_ok, findFirstOfImpl_abs hw.1 hn _ hpos hx] at h1; cases h1
+  exact c11_obs hw.1 (by simp only [spec, needleText, needlePos, hof, if_true])
+
+theorem c11_ffo_c (hw : WFW c cu w) (ch : Byte) (p : Option Nat) : C11Holds c cu w (.search .ffo (.c ch p)) := by
+  intro w' o h
+  simp only [step] at h
+  obtain ⟨r, h1, rfl, rfl⟩ := obs_inv h
+  simp only [searchStep] at h1
+  rw [findFirstOfCh_abs hw.1] at h1; cases h1
+  exact c11_obs hw.1 (by simp only [spec, needleText, needlePos, Bool.false_eq_true, if_false])
+
+theorem c11_ffno_c (hw : WFW c cu w) (ch : Byte) (p : Option Nat) : C11Holds c cu w (.search .ffno (.c ch p)) := by
+  intro w' o h
+  simp only [step] at h
+  obtain ⟨r, h1, rfl, rfl⟩ := obs_inv h
+  simp only [searchStep] at h1
+  rw [findFirstOfCh_abs hw.1] at h1; cases h1
+  exact c11_obs hw.1 (by simp only [spec, needleText, needlePos, if_true])
+
 end CelmaVerif.FixedString
